@@ -100,7 +100,7 @@ func run(src, dst, hooks string) error {
 		}
 		for i, f := range p.Syntax {
 			name := p.CompiledGoFiles[i]
-			if strings.HasSuffix(name, "_test.go") || filepath.Base(name) == "zz_verif_hooks.go" {
+			if strings.HasSuffix(name, "_test.go") {
 				continue
 			}
 			if err := rewriteFile(p, f, name); err != nil {
